@@ -108,6 +108,7 @@ fi
 
 # generous wall-clock watchdog; its firing is inconclusive, never a violation
 WD=1800; [ "$TIER" = "thorough" ] && WD=10800
+T0=$(date +%s)
 ERRF="$(mktemp /tmp/veriferr.XXXXXX)"
 watch_size "$ERRF"
 timeout -s QUIT -k 30 "$WD" "$MON" "$PROP" 2>> "$ERRF"
@@ -116,7 +117,12 @@ kill "$WATCHER" 2>/dev/null; wait "$WATCHER" 2>/dev/null
 { [ -f "$ERRF.head" ] && cat "$ERRF.head"; tail -c 4000000 "$ERRF"; } >&2
 rm -f "$ERRF" "$ERRF.head"
 if [ $rc -eq 124 ] || [ $rc -eq 137 ] || [ $rc -eq 131 ]; then
-  echo "INCONCLUSIVE property=$PROP reason=watchdog fired after ${WD}s (rc=$rc)"
+  ran=$(( $(date +%s) - T0 ))
+  if [ $rc -eq 137 ] && [ $ran -lt $WD ]; then
+    echo "INCONCLUSIVE property=$PROP reason=the monitor process was killed from outside after ${ran}s (SIGKILL: the kernel's out-of-memory killer on a machine shared with other work?)"
+  else
+    echo "INCONCLUSIVE property=$PROP reason=watchdog fired after ${WD}s (rc=$rc)"
+  fi
   exit 2
 fi
 if [ $rc -ne 0 ] && [ $rc -ne 1 ] && [ $rc -ne 2 ]; then
